@@ -566,7 +566,13 @@ func runWireCase(t *testing.T, r *rep.Reporter, c *rep.Case, ci int) {
 			continue
 		}
 		judge(ch, stage, via, utf8, rp)
-		if stage == "mail" && deferReject {
+		if ch.MultiLine {
+			// go-smtp writes the text as it is: the rest of the message is still
+			// in the pipe (reply splitting is not C16's subject)
+			cl.close()
+			cl = nil
+		}
+		if cl != nil && stage == "mail" && deferReject {
 			// With defer_sender_reject the session keeps the failed MAIL result and
 			// repeats it for later transactions of the connection (RSET does not
 			// clear it; that is C03's subject, not C16's): use a fresh connection.
